@@ -15,7 +15,7 @@ EXTENDS Integers, Sequences, FiniteSets, TLC
 CONSTANTS Tokens,      \* line contents at the source, e.g. {"a", "b"}
           MaxSrc,      \* lines at the source
           MaxStages,
-          Kinds,       \* subset of {"mapx", "fn", "dup", "tac", "errtee"}
+          Kinds,       \* subset of {"mapx", "fn", "dup", "tac", "errtee", "cast", "ifa", "sw", "var"}
           Cap          \* channel capacity in lines (stands for the 1 MiB buffer)
 
 \* a line is a sequence of one-character strings; the renderer concatenates them
@@ -37,6 +37,13 @@ StageOut(k, in) ==
       [] k = "dup"    -> MxFlat(MapSeq(in, LAMBDA l : <<l, l>>))
       [] k = "tac"    -> MxRev(in)
       [] k = "errtee" -> in
+      [] k = "cast"   -> in                                                   \* `cast str`: bytes unchanged
+      \* if { $v == "a" } then { out A } else { out $v }
+      [] k = "ifa"    -> MapSeq(in, LAMBDA l : IF l = <<"a">> THEN <<"A">> ELSE l)
+      \* switch $v { case "b" { out B } default { out $v } }
+      [] k = "sw"     -> MapSeq(in, LAMBDA l : IF l = <<"b">> THEN <<"B">> ELSE l)
+      \* a variable assigned from the element and read back in an expression-built string
+      [] k = "var"    -> MapSeq(in, LAMBDA l : <<"v">> \o l \o <<"v">>)
 StageErr(k, in) == IF k = "errtee" THEN MapSeq(in, LAMBDA l : <<"e">> \o l) ELSE <<>>
 
 RECURSIVE RunStages(_, _, _)
